@@ -116,7 +116,11 @@ class CMSSystem(System):
                     if cls == "meanmin" and w == 1:
                         continue  # mean-min divides by (width - 1): width 1 is outside its domain (also in the C version)
                     cfgs.append(dict(cls=cls, width=w, depth_=d, strat=strat, hitters=2, threshold=2, nkeys=3, depth=depth,
-                                     amounts=[1, 2], seed=seed, cost=w * d))
+                                     amounts=[1, 2], seed=seed, cost=500))
+                    if prop != "C02" and cls in ("min", "mean", "meanmin") and strat in ("table", "fnv") and d >= 2:
+                        # removals beyond what was added are legal for a sketch: states with negative counters
+                        cfgs.append(dict(cls=cls, width=w, depth_=d, strat=strat, hitters=2, threshold=2, nkeys=2, depth=depth,
+                                         amounts=[1, 3], free_remove=True, seed=seed, cost=500))
             for sizing in ((0.5, 0.9), (0.9, 0.7)):
                 f = CountMinSketch(confidence=sizing[0], error_rate=sizing[1])
                 if cls == "meanmin" and f.width == 1:
@@ -144,7 +148,7 @@ class CMSSystem(System):
         if cfg["cls"] != "hh":
             for i in range(len(keys)):
                 for n in cfg["amounts"]:
-                    if n <= st.model["true"][i]:
+                    if n <= st.model["true"][i] or cfg.get("free_remove"):
                         evs.append(("remove", i, n))
         if cfg["cls"] not in ("hh", "st"):
             evs += [("reload", "bytes"), ("reload", "file")]
@@ -393,9 +397,14 @@ class CMSSystem(System):
         if c[0] != "ok" or observation(g, kind) != observation(fresh, kind):
             bad("C19", "cms.clear_equals_fresh", {"cleared": repr(observation(g, kind))[:300], "fresh": repr(observation(fresh, kind))[:300]})
         else:
-            a, b = call(g.add, keys[0], 2), call(fresh.add, keys[0], 2)
-            if a != b or observation(g, kind) != observation(fresh, kind):
-                bad("C19", "cms.clear_equals_fresh_one_step_later", {"cls": kind})
+            # ... and stays indistinguishable over a short script (hidden state such as an eviction threshold)
+            script = [(k, 1) for k in keys] + [(keys[-1], 2), (keys[0], 1), (keys[1 % len(keys)], 3)]
+            for i, (k, n) in enumerate(script):
+                a, b = call(g.add, k, n), call(fresh.add, k, n)
+                if a != b or observation(g, kind) != observation(fresh, kind):
+                    bad("C19", "cms.clear_equals_fresh_later", {"cls": kind, "script_step": i, "cleared": repr(observation(g, kind))[:200],
+                                                                "fresh": repr(observation(fresh, kind))[:200]})
+                    break
 
     def check_initial(self, cfg, st, props):
         return self.check_state(cfg, st, ("init",), ("ok", None), st, props)
